@@ -15,10 +15,13 @@ var _ types.FundraisingHooks = Keeper{}
 
 // SetHooks sets the fundraising hooks.
 func (k *Keeper) SetHooks(fk types.FundraisingHooks) *Keeper {
-	if k.hooks != nil {
+	if k.hooks == nil {
+		k.hooks = &types.MultiFundraisingHooks{}
+	}
+	if len(*k.hooks) != 0 {
 		panic("cannot set fundraising hooks twice")
 	}
-	k.hooks = fk
+	*k.hooks = types.MultiFundraisingHooks{fk}
 	return k
 }
 
